@@ -618,7 +618,8 @@ def mod(a, b):
     if type(a) is float or type(b) is float:
         return a - b * floor(a/b)
 
-    c = int(math.fmod(a, b))
+    c = abs(a) % abs(b)  # Exact for any int, math.fmod goes through float.
+    if a < 0: c = -c
     if c < 0: c += b
     return c
 
